@@ -17,10 +17,10 @@ CssMid   == {<<>>, <<"x">>, <<"y", "x">>}
 PresetNone == {{}}
 PresetSome == {{}, {<<"p", 1>>}, {<<"s", 0>>}}   \* s: a cached property that no entry point uses
 MsgNone == {[pre |-> 0, post |-> 0]}
-MsgPre  == {[pre |-> 1, post |-> 0]}
-MsgBoth == {[pre |-> 1, post |-> 1]}
+MsgPre  == {[pre |-> 2, post |-> 0]}
+MsgBoth == {[pre |-> 2, post |-> 3]}
 \* messages with distinct keys per linker are produced by giving linker i the key base + i
-MsgAll  == {[pre |-> 0, post |-> 0], [pre |-> 1, post |-> 0], [pre |-> 2, post |-> 3], [pre |-> 0, post |-> 2]}
+MsgAll  == {[pre |-> 0, post |-> 0], [pre |-> 1, post |-> 2], [pre |-> 2, post |-> 1], [pre |-> 3, post |-> 0]}
 
 ModesBoth == {"plain", "minify"}
 ModesPlain == {"plain"}
